@@ -357,7 +357,7 @@ func c06list(c *core.Ctx) {
 					name = fmt.Sprintf("l%d.PushFrontList(l%d)", li, oi)
 				}
 				hist = append(hist, name)
-				if o.s.Len() > 60 || !sane(o) || !sane(l) {
+				if o.s.Len() > 260 || (o.s.Len() > 60 && !r.Chance(1, 3)) || !sane(o) || !sane(l) {
 					name = ""
 					return
 				}
@@ -525,6 +525,44 @@ func c06ring(c *core.Ctx) {
 			reg(&lists.Ring[int]{}, &ring.Ring{}) // zero value ring
 			hist = append(hist, "zero-value Ring")
 			c.Count("ring_zero_value", 1)
+			// the FIRST call on an untouched zero ring initialises it lazily: let it be
+			// any of the calls, not always the Next/Prev of the structure check
+			h := hs[len(hs)-1]
+			first := r.Intn(6)
+			name := []string{"Do", "Len", "Move(0)", "Move(3)", "Unlink(0)", "none"}[first]
+			hist = append(hist, "first call on the zero ring: "+name)
+			var bad string
+			if p, pv := core.Catch(func() {
+				switch first {
+				case 0:
+					var dg, ds []int
+					h.g.Do(func(v int) { dg = append(dg, v) })
+					h.s.Do(func(v any) { ds = append(ds, v.(int)) })
+					if !eqSlice(dg, ds) {
+						bad = fmt.Sprintf("Do visits %v, container/ring %v", dg, ds)
+					}
+				case 1:
+					if h.g.Len() != h.s.Len() {
+						bad = fmt.Sprintf("Len %d vs %d", h.g.Len(), h.s.Len())
+					}
+				case 2, 3:
+					n := []int{0, 3}[first-2]
+					if idG(h.g.Move(n)) != idS(h.s.Move(n)) {
+						bad = "Move result differs"
+					}
+				case 4:
+					if idG(h.g.Unlink(0)) != idS(h.s.Unlink(0)) {
+						bad = "Unlink(0) result differs"
+					}
+				}
+			}); p {
+				fail("zero-ring-first-call:panic", fmt.Sprintf("%s as the first call on a zero-value Ring panicked: %v", name, pv))
+				return
+			}
+			if bad != "" {
+				fail("zero-ring-first-call", name+" as the first call on a zero-value Ring: "+bad)
+				return
+			}
 		default:
 			if !newRing(r.Range(-1, 7)) {
 				return
